@@ -117,6 +117,11 @@ def logfmt_campaign(prop, out, B, vectors, cfg, quick, rng, stats, label):
                 x = rng.choice([1, 0x80, 0xff])
                 kf = 1 if (cls == 'type' and r['len'] == 0 and (r['type'] ^ x) == 0) else 0
                 tests.append((idx, 'flip', pos, x, i + 1, cls, kf))
+        # an unknown record type with a valid checksum: that logical record is dropped as a whole (reported), nothing else
+        if (not quick or idx % 2 == 1):
+            ut = [(k, r) for k, r in enumerate(recs)]
+            for i, r in (ut if len(ut) <= 2 else rng.sample(ut, 2)):
+                tests.append((idx, 'utype', r['off'], rng.choice([5, 9, 200]), i + 1, 'unknowntype', 0))
         # a whole interior block reads back as zeros (a lost block): records with a fragment in it are dropped as a whole - and
         # reported, when the block interrupts a fragmented record; nothing is glued together from the fragments around it
         nblk = (len(data) + B - 1) // B
